@@ -1,4 +1,5 @@
 import Model.Numscript.Spec
+import Model.Numscript.VM
 /-! C12 — no script, variable map or ledger state can crash the engine.
 Stage 1: at the level of `Spec` (the source-level interpreter the compiler+VM are differentially tied to).
 `Spec.run` is a total Lean function — every recursion in it (`evalSource`/`evalSources`,
@@ -27,5 +28,19 @@ theorem run_is_pure (P Q : Script) (req req' : Request) (store store' : Store) :
 theorem first_error_wins (env : VEnv) (s : Stmt) (ss : List Stmt) (F : Full) (e : Err)
     (h : evalStmt env s F = .error e) : evalStmts env (s :: ss) F = .error e := by
   simp [evalStmts, h]
+
+/-! ### stage 2 — the bytecode VM (model A2) -/
+
+/-- **the VM terminates**: there are no jumps, `Execute` performs at most one `tick` per instruction
+(`VM.exec` recurses structurally on the remaining instruction list) -/
+theorem vm_terminates (rs : List BVal) (is : List Instr) (m : VM.Machine) : VM.ticks rs is m ≤ is.length := by
+  induction is generalizing m with
+  | nil => simp [VM.ticks]
+  | cons i is ih =>
+    simp only [VM.ticks, List.length_cons]
+    cases h : VM.step rs i m with
+    | ok m' => have := ih m'; simp only []; omega
+    | error e => simp
+    | panic k => simp
 
 end C12
